@@ -210,16 +210,14 @@ def replay_walks(ctx, binary, args, hdr, lines, what, dev_graph=None, describe=N
     ctx.cov["traces_validated_against_impl"] += len(lines)
     ctx.cov["evaluations"] += summ[0]["steps"]
     explained = []
-    for r in recs:
-        if not r.get("mismatch"):
-            continue
-        again = vlib.run_harness(ctx, binary, args=args, cases=[hdr, r["case"]])
-        again = [x for x in again if x.get("mismatch")]
-        if not again:
-            continue                      # did not reproduce from a clean start: not believed
-        r = again[0]
+    bad = [r for r in recs if r.get("mismatch")]
+    if bad:
+        # every walk starts from a fresh metric: re-execute the failing ones alone before believing them
+        again = vlib.run_harness(ctx, binary, args=args, cases=[hdr] + [r["case"] for r in bad])
+        bad = [x for x in again if x.get("mismatch")]
+    g = dev_graph() if (bad and dev_graph) else None
+    for r in bad:
         steps = r["case"]["walk"][: r["step"] + 1]
-        g = dev_graph() if dev_graph else None
         if g is not None and explains(g, r["case"]["v"], steps, r["actual"]):
             explained.append((r, r["why"]))
             continue
